@@ -197,9 +197,29 @@ func (server *Server) setupServe() {
 
 	// start HTTP/1.1 server
 	if server.http1ConnChannelListener == nil {
+		// HTTP/1.1 connections reach net/http wrapped in hack.TLSClientHelloConn,
+		// which net/http does not recognize as TLS, so it leaves Request.TLS nil
+		// (and X-Forwarded-Proto becomes "http"). Restore it from the metadata.
+		server.HTTPServer.Handler = withTLSState(server.HTTPServer.Handler)
 		server.http1ConnChannelListener = hack.NewChannelListener(server.ctx)
 		go server.serveHTTP1()
 	}
+}
+
+// withTLSState sets Request.TLS from the connection's metadata if it is unset.
+func withTLSState(next http.Handler) http.Handler {
+	if next == nil {
+		next = http.DefaultServeMux
+	}
+	return http.HandlerFunc(func(w http.ResponseWriter, r *http.Request) {
+		if r.TLS == nil {
+			if md, ok := metadata.FromContext(r.Context()); ok && md.ConnectionState.HandshakeComplete {
+				cs := md.ConnectionState
+				r.TLS = &cs
+			}
+		}
+		next.ServeHTTP(w, r)
+	})
 }
 
 func (server *Server) Serve(ln net.Listener) error {
